@@ -91,7 +91,29 @@ def parse_get(path):
 
 
 def opt_py(o):
+    """option strings as a caller would typically have them: built at run time (from a config file, argv, .lower() ...),
+    i.e. EQUAL to the documented spelling but not the interned literal object"""
+    if isinstance(o, str):
+        return "".join(list(o))
     return o
+
+
+def make_node(st):
+    """ordinary nodes of every built-in class (the tree operations are those of Node; a class may define __len__ / __bool__)"""
+    import numpy as np
+    cls = st.get("cls", "Node")
+    nm = "".join(list(st["name"]))
+    if cls == "PointList0":
+        return emdfile.PointList(data=np.zeros(0, dtype=[("x", float)]), name=nm)
+    if cls == "PointList":
+        return emdfile.PointList(data=np.zeros(2, dtype=[("x", float)]), name=nm)
+    if cls == "Array":
+        return emdfile.Array(data=np.zeros((2, 2)), name=nm)
+    if cls == "Array0":
+        return emdfile.Array(data=np.zeros((0,)), name=nm)
+    if cls == "PointListArray":
+        return emdfile.PointListArray(dtype=[("x", float)], shape=(1, 2), name=nm)
+    return emdfile.Node(name=nm)
 
 
 def run_impl(steps):
@@ -105,7 +127,7 @@ def run_impl(steps):
                 if do == "root":
                     w.reg(emdfile.Root(name=st["name"]))
                 elif do == "node":
-                    w.reg(emdfile.Node(name=st["name"]))
+                    w.reg(make_node(st))
                 elif do == "md":
                     w.nodes[st["node"]].metadata = emdfile.Metadata(name=st["name"], data={"c": st["content"]})
                 elif do == "add":
@@ -113,10 +135,10 @@ def run_impl(steps):
                 elif do == "force":
                     w.nodes[st["parent"]].force_add_to_tree(w.nodes[st["child"]])
                 elif do == "graft":
-                    x = w.nodes[st["recv"]].graft(w.nodes[st["scion"]], merge_metadata=st["opt"])
+                    x = w.nodes[st["recv"]].graft(w.nodes[st["scion"]], merge_metadata=opt_py(st["opt"]))
                     r = {"node": w.reg(x)} if x is not None else "ok"
                 elif do == "cut":
-                    x = w.nodes[st["node"]].cut(root_metadata=st["opt"])
+                    x = w.nodes[st["node"]].cut(root_metadata=opt_py(st["opt"]))
                     r = {"node": w.reg(x)}
                 elif do == "get":
                     x = w.nodes[st["node"]].get_from_tree(st["path"])
